@@ -10,7 +10,7 @@ def rows(prefix_r2):
     for d in sorted(os.listdir('/verif/seeded')):
         mp=f'/verif/seeded/{d}/meta.json'
         if not os.path.exists(mp): continue
-        rnd = 4 if d.startswith('R4-') else 3 if d.startswith('R3-') else (True if d.startswith('R2-') else False)
+        rnd = 5 if d.startswith('R5-') else 4 if d.startswith('R4-') else 3 if d.startswith('R3-') else (True if d.startswith('R2-') else False)
         if rnd != prefix_r2: continue
         m=json.load(open(mp)); det=m.get('detection',{})
         fd=det.get('first_detail','')
@@ -228,6 +228,51 @@ small k (R4-C03-1), Binomial n = 2^50 … 2^63 with n·p ∈ {{½, 2, 9.5}}
 | id | change | needs | caught by | time incl. rebuild |
 |---|---|---|---|---|
 {rows(4)}
+
+**Round 5: 21 changes** for C04, C06, C07, C12, C13, C14, C15 (kinds the
+earlier rounds had not used: process-global `OnceLock` state, address-dependent
+summation, hand-written `Clone`, serde helpers for non-finite values, word-count
+changes for exact parameter coincidences). A preview in a scratch clone caught
+16 of 21 with their own quick check; what the others led to:
+
+* R5-C07-1 (Triangular draws a second uniform when the mode is exactly
+  central): C07 treated a word-count difference of Triangular under rounded
+  parameters as a "branch flip" (counted, not judged). Triangular and
+  InverseGaussian consume a fixed number of draws whatever branch they take, so
+  their word counts are now judged in both regimes; only Pert (Beta rejection)
+  keeps the allowance.
+* R5-C14-1 (a table filled by whichever of StandardNormal / Exp1 samples first
+  in the *process*): caught by the fresh-process probes, which were added while
+  the agents were still writing (the scenario had been anticipated from the
+  list of kinds given to them) — replays inside one process cannot see it.
+* R5-C14-2 (hand-written `Clone` re-deriving a float tree's subtotals): C14's
+  objects are freshly built and immutable; the clone of a tree *after an update
+  history* is looked at by C10, which now requires `clone() == original` and
+  equal `Debug` (cross-detection; before that its 256 paired draws missed a
+  1e-6 per-draw difference).
+* R5-C14-3 (pairwise sum split at a 64-byte boundary of the caller's buffer):
+  a new deterministic step builds each of 64 long decimal weight vectors in
+  buffers of up to four alignment classes and requires indistinguishable
+  values.
+* R5-C15-2 (non-finite mean written as `None`, read back as +inf): C15 skipped
+  every document containing `null`; it now judges such a document whenever the
+  type's own deserialiser accepts it, and the documented special values
+  (Exp(0), Normal(±inf, 1), LogNormal::from_mean_cv(0, 0), Gamma(k, inf),
+  Gamma(inf, s)) are C15 cells.
+* R5-C07-3 (Gamma retry for shape ≤ 0.1 in f32 / 0.01 in f64 with scale < 1)
+  manifests only below the lower end of E for Gamma's shape (underflow
+  region): **not detected, outside the quantifier**.
+
+| id | change | needs | caught by | time incl. rebuild |
+|---|---|---|---|---|
+{rows(5)}
+
+**Re-evaluation.** After round 4 every one of the 116 changes of rounds 1–3 was
+run again (scratch clone, final harness, own property's quick check): the
+detection matrix is unchanged — the only non-detections are the five already
+explained (R2-C02-1 thorough only; R2-C08-3 → C14; R2-C14-1 → C10; R3-C03-2 →
+C09/C10; and R2-C02-2, whose patch no longer applied after fix 1aff986 and was
+rebased, re-confirmed and is caught).
 
 Cross-detection seen on the way (not systematically measured): C11-2 ≡ C14-2
 (same Dirichlet early exit) is caught by both C11 (marginal law of the stale
